@@ -354,6 +354,7 @@ def run(chk):
                        'values per level (values chosen so that keys coincide with the integer codes of the recoding), restricted to the domain of C13, and computes the definition-level result '
                        '(key, object row, parameter row); every configuration is built as pandas Series/DataFrame operands (kind chosen by seed) and Broadcaster.broadcast is compared row by row, '
                        'operands are compared with deep copies; every configuration is built under two key namings (strings/tens/codes, and integer keys that permute the positions 0..n-1 with named default RangeIndexes). Non-trivial = partially shared level sets. Scalar/array/parameter-vector paths and a downstream woehler calculation are checked separately.')
+    chk.cov['rule'] += ' Downstream: per-element Woehler curves with different native failure probabilities, integer cycle numbers, scale/shift of a collective must not modify it, mean stress transformation with sensitivities per (element_id, material); Series signal x array-likes of 1..3 values.'
     chk.cov['exhaustive'] = True
     chk.assumptions += ['row ORDER of the result is not prescribed by C13 and not compared; keys are unique within an operand',
                         'configurations outside the domain (shared-level key tuples differ) are not generated']
